@@ -71,6 +71,11 @@ def run(ctx, tier):
     ctx.rule("W4", "(shared with C19.I2) url and url_aggregator copies of the protocol setter's state-override block agree: same refusals, same default-port elision")
     ctx.rule("W5", "the IPv6 parsers of url and url_aggregator are statement-for-statement identical up to the storage epilogue")
     ctx.rule("W7", "ada::url::get_components() computes, on every path, the offsets of the layout url_aggregator maintains")
+    ctx.rule("S1", "(shared with C07) every shift of a url_aggregator offset is applied to every later offset on the path")
+    ctx.rule("S2", "(shared with C07) optional offsets are shifted only when known present")
+    ctx.rule("S3", "(shared with C07) every offset behind a buffer edit position is shifted or reassigned on the path")
+    ctx.rule("S6", "(shared with C07) byte accounting of the in-place editors: an offset left behind by an editor makes "
+                   "url_aggregator's getters differ from ada::url's")
     ctx.rule("W9", "(shared with C10.H9) both IPv6 parsers move the pieces behind '::' from the last one down (the loop's form may "
                    "differ between the twins and is left out of W5)")
     ctx.rule("W8", "the host parsers of the two types send the same byte values down the IDNA (unicode::to_ascii) route")
@@ -409,6 +414,11 @@ def check(ctx, fx):
     c04_route.check(ctx, fx, "W8")
     from rules import c10 as _c10
     _c10.check_ipv6_move(ctx, fx, "W9")
+    if fx.config == "release":
+        # (shared with C07/C02) ada::url recomputes its offsets from its fields; url_aggregator edits them in place: an
+        # editor that leaves an offset behind makes the aggregator's getters differ from ada::url's
+        from rules import c07 as _c07
+        _c07.check_offsets_only(ctx, fx)
     # ---- W1 ----
     # (development-check builds add assertion control flow to the aggregator copy only: the
     #  skeletons are compared in the configurations without it)
